@@ -14,7 +14,7 @@ in mon/ref/stdlib_ref.py.
 import itertools
 import json
 
-from .. import runner, stdcheck as SC
+from .. import runner, sanit, stdcheck as SC
 from ..common import outcome, strict_json, deep_equal, panic_sig
 from ..gen import prog
 from ..ref import interp, jast, stdlib_ref as R
@@ -321,6 +321,7 @@ def run(tier, seed, t0):
     acc = runner.Acc()
     for a in accs:
         acc.merge(a)
+    sanit.run_pass(acc, PROP, tier, seed, quick={"asan": 160}, thorough={"asan": 2400, "memcheck": 480, "miri": 256})
     return runner.finish(
         PROP, tier, seed, "exploration", acc, t0,
         rule="objects: every 1-layer chain over names {a,b} x %d member kinds (C02 kinds + lazily failing, hidden failing, "
